@@ -10,13 +10,13 @@ from contracts.lib import *  # noqa
 LEVEL = "other"
 MANIFEST_ENTRY = {
     "text": "For every available-space value, every reservation already in progress and every share size (all unbounded integers), allocate_buckets never grants new buckets whose sizes exceed what is left, grants none on a read-only server, registers each granted writer, and skips shares already present or in progress; bucket_writer_closed removes exactly the closing writer so allocated_size drops by its reservation. The share-number set is bounded to 2 requested shares in each of the states absent/final/incoming/not-requested (shape bound), hence level 'other'.",
-    "note": "Bound: <=2 share numbers per request (16 state combinations x read-only x space-API-present), <=1 other upload in progress with symbolic reservation. fileutil.get_available_space is the assumed source of the free-space number (statvfs). BucketWriter construction is replaced by a stub that records (incoming path, size); its own contract is C22. Release on close/abort is C22's BucketWriterAbort/Close + bucket_writer_closed here.",
+    "note": "Bound: <=2 share numbers per request (16 state combinations x read-only x space-API-present), <=1 other upload in progress with symbolic reservation. fileutil.get_available_space/get_disk_stats (Unix branch) is under contract too (DiskAvailableSpace): max(f_frsize*f_bavail - reserved_space, 0), None without a disk API, 0 when the OS call fails; os.statvfs itself is trusted and the Windows ctypes branch is outside. BucketWriter construction is replaced by a stub that records (incoming path, size); its own contract is C22. Release on close/abort is C22's BucketWriterAbort/Close + bucket_writer_closed here.",
     "technique": "contract-based deductive verification (pyvc VCs + z3); request shape bounded",
 }
 MANIFEST_ENTRY["text"] += " Bounded end-to-end stand-in (run-time contract, never counted as proved): contracts/grid_http.py drives the real StorageServer through seeded histories (allocate, chunked/overlapping/conflicting/overrunning writes, abort, 31-minute timeout, reads, leases, read-test-write with failing tests, truncation, deletion, wrong write enabler) and compares it after every operation with a plain byte-array model: visible shares, bytes, space reserved for uploads in progress, mutable slots."
 MANIFEST_ENTRY["technique"] = MANIFEST_ENTRY.get("technique", "contract-based deductive verification: pre/postconditions on the real functions, VCs generated from the AST, discharged by z3/cvc5") + "; plus a bounded run-time contract: the real StorageServer against a byte-array model over seeded histories (stand-in, labelled bounded)"
 EXPLANATION = "allocate_buckets executed symbolically for all integer space values; request shape bounded to two share numbers."
-TRUSTED = ["fileutil.get_available_space returns the disk's free space minus reserved_space (assumed)"]
+TRUSTED = ["os.statvfs reports the filesystem's f_frsize/f_bavail (fileutil.get_available_space itself is under contract: DiskAvailableSpace; Windows ctypes branch not under contract)"]
 ASSUMPTIONS = ["termination not proved"]
 NOT_DECIDED = "histories of several requests (composition of the per-call contract), HTTP upload bookkeeping."
 F = "allmydata/storage/server.py"
@@ -210,25 +210,92 @@ class AvailableSpace(Spec):
     cross_check = 0
 
     def inputs(self):
-        return {"A": IntK(0), "readonly": ChoiceK([False, True])}
+        return {"A": IntK(0), "R": IntK(0), "readonly": ChoiceK([False, True])}
 
     def all_cases(self):
         return [{"readonly": False}, {"readonly": True}]
 
     def config(self):
         me = self
-        return {"overrides": {"fileutil.get_available_space": lambda I, a, kw: me._a["A"]}}
+
+        def gas(I, args, kw):
+            me._asked.append(tuple(args))
+            return me._a["A"]
+        return {"overrides": {"fileutil.get_available_space": gas}}
 
     def run(self, I, a):
-        self._a = a
-        ss = SObj(self.module().StorageServer, {"readonly_storage": a["readonly"], "sharedir": "shares", "reserved_space": 0})
-        return I.call_value(self.target(I), [ss], {})
+        self._a, self._asked = a, []
+        ss = SObj(self.module().StorageServer, {"readonly_storage": a["readonly"], "sharedir": "shares", "reserved_space": a["R"]})
+        out = Outcome("return", I.call_value(self.target(I), [ss], {}))
+        out.post = {"asked": list(self._asked)}
+        return out
 
     def ensures(self, I, a, out):
-        return [("read-only-reports-zero-else-disk-value", Z(out.value) == (0 if a["readonly"] else Z(a["A"])))]
+        g = [("read-only-reports-zero-else-disk-value", Z(out.value) == (0 if a["readonly"] else Z(a["A"])))]
+        if not a["readonly"]:
+            asked = out.post["asked"]
+            ok = len(asked) == 1 and len(asked[0]) == 2 and asked[0][0] == "shares"
+            g.append(("asks-for-the-share-directory-with-the-configured-reservation",
+                      z3.And(z3.BoolVal(ok), Z(asked[0][1]) == Z(a["R"])) if ok else z3.BoolVal(False)))
+        return g
 
     def canary(self, I, a, out):
         return [("canary", Z(out.value) == 1)]
+
+
+class DiskAvailableSpace(Spec):
+    """fileutil.get_available_space / get_disk_stats (Unix branch): the number handed to the storage server is
+    max(f_frsize * f_bavail - reserved_space, 0) of the filesystem -- the non-root free space minus the reservation, never
+    negative; no disk-information API => None (the server then does not limit); a failing OS call => 0 (accept nothing)."""
+    file = "allmydata/util/fileutil.py"
+    qualname = "get_available_space"
+    cross_check = 0
+    canary_case = {"os": "ok"}
+
+    def inputs(self):
+        return {"frsize": IntK(0), "blocks": IntK(0), "bfree": IntK(0), "bavail": IntK(0), "reserved": IntK(0),
+                "os": ChoiceK(["ok", "no-api", "fails"])}
+
+    def all_cases(self):
+        return [{"os": "ok"}, {"os": "no-api"}, {"os": "fails"}]
+
+    def config(self):
+        me = self
+
+        def statvfs(I, args, kw):
+            me._asked.append(args[0])
+            if me._a["os"] == "no-api":
+                raise PyRaise(SObj(AttributeError, {"args": ("statvfs",)}))
+            if me._a["os"] == "fails":
+                raise PyRaise(SObj(OSError, {"args": (5, "EIO")}))
+            a = me._a
+            return SObj(StubCls, {"f_frsize": a["frsize"], "f_blocks": a["blocks"], "f_bfree": a["bfree"], "f_bavail": a["bavail"],
+                                  "f_bsize": a["frsize"]}, name="statvfs_result")
+        return {"overrides": {"posix.statvfs": statvfs, "os.statvfs": statvfs, "log.msg": noop, "LogPublisher.msg": noop}}
+
+    def requires(self, I, a):
+        return self.module().have_GetDiskFreeSpaceExW is False      # the Windows branch (ctypes) is not under contract
+
+    def run(self, I, a):
+        self._a, self._asked = a, []
+        out = Outcome("return", I.call_value(self.target(I), ["the-share-dir", a["reserved"]], {}))
+        out.post = {"asked": list(self._asked)}
+        return out
+
+    def ensures(self, I, a, out):
+        g = [("asks-the-filesystem-of-the-given-directory", z3.BoolVal(out.post["asked"] == ["the-share-dir"]))]
+        if a["os"] == "no-api":
+            return g + [("no-disk-api-reports-None", z3.BoolVal(out.value is None))]
+        if a["os"] == "fails":
+            return g + [("failing-os-call-reports-zero-space", z3.BoolVal(False) if out.value is None else Z(out.value) == 0)]
+        if out.value is None:
+            return g + [("available-is-nonroot-free-space-minus-reservation-floored-at-zero", z3.BoolVal(False))]
+        free = Z(a["frsize"]) * Z(a["bavail"])
+        return g + [("available-is-nonroot-free-space-minus-reservation-floored-at-zero", Z(out.value) == z3.If(free - Z(a["reserved"]) > 0, free - Z(a["reserved"]), 0)),
+                    ("available-is-never-negative", Z(out.value) >= 0)]
+
+    def canary(self, I, a, out):
+        return [("canary", Z(out.value) == Z(a["frsize"]) * Z(a["bavail"]))]
 
 
 def extra_checks(rep, tier):
@@ -239,4 +306,4 @@ def extra_checks(rep, tier):
 def contracts(tier):
     # release of the reservation on close / abort / timeout / disconnect: the BucketWriter contracts of C22
     from contracts.C22 import BucketWriterAbort, BucketWriterClose
-    return [AllocateBuckets(), AllocatedSize(), AvailableSpace(), BucketWriterAbort(), BucketWriterClose()]
+    return [AllocateBuckets(), AllocatedSize(), AvailableSpace(), DiskAvailableSpace(), BucketWriterAbort(), BucketWriterClose()]
